@@ -1,4 +1,4 @@
-(* Design probe: SHA-256 on byte lists in Gallina (for comparing Merkle roots and payload/block hashes with Go). *)
+(* SHA-256 on byte lists in Gallina (for comparing Merkle roots and payload/block hashes with Go). *)
 From Coq Require Import NArith Arith List.
 Import ListNotations.
 Open Scope N_scope.
